@@ -2947,6 +2947,9 @@ def default_inline(ex, callee, info):
     if callee.get("kind") == "AssocFn" and not callee.get("pub") and (callee.get("impl_self") or "").startswith("mqtt::connection::core::") \
             and len(callee["blocks"]) <= 160:
         return True      # methods of private helper types of the connection module (a decision enum, a grouped-fields struct)
+    if callee.get("kind") == "AssocFn" and not callee.get("pub") and not callee.get("impl_trait") and len(callee["blocks"]) <= 60 \
+            and (callee.get("impl_self") or "").startswith(("mqtt::common::", "mqtt::connection::")):
+        return True      # private methods of the supporting structures: part of the public method that calls them
     if callee.get("name") in ("try_from", "from", "try_from_primitive") and callee.get("impl_trait") \
             and callee["path"].lstrip("<").startswith("mqtt::packet::packet_type::") and not has_back_edge(callee) and len(callee["blocks"]) <= 120:
         return True      # conversion table u8 <-> PacketType (hand-written or derived): the case split a `match` on the raw value makes
